@@ -19,7 +19,7 @@ from inference.deadline import Deadline
 # ---------------------------------------------------------------------------
 from inference.inference import Inference
 from inference.optimizer import create_optimizer
-from inference.tseitin_transformation import TseitinTransformation
+from inference.tseitin_transformation import QUERY_KEY, TseitinTransformation
 from infocf.log_setup import get_logger
 
 logger = get_logger(__name__)
@@ -70,8 +70,8 @@ class SystemW(Inference):
         # self._translation_start()
         tseitin_transformation = TseitinTransformation(self.epistemic_state)
         translated_query = tseitin_transformation.query_to_cnf(query)
-        self.epistemic_state["v_cnf_dict"][0] = translated_query[0]
-        self.epistemic_state["f_cnf_dict"][0] = translated_query[1]
+        self.epistemic_state["v_cnf_dict"][QUERY_KEY] = translated_query[0]
+        self.epistemic_state["f_cnf_dict"][QUERY_KEY] = translated_query[1]
         wcnf = WCNF()
         if not weakly:
             result = self._rec_inference(
@@ -122,8 +122,8 @@ class SystemW(Inference):
             softc = self.epistemic_state["nf_cnf_dict"][index]
             [wcnf.append(s, weight=1) for s in softc]
         wcnf_prime = wcnf.copy()
-        [wcnf.append(c) for c in self.epistemic_state["v_cnf_dict"][0]]
-        [wcnf_prime.append(c) for c in self.epistemic_state["f_cnf_dict"][0]]
+        [wcnf.append(c) for c in self.epistemic_state["v_cnf_dict"][QUERY_KEY]]
+        [wcnf_prime.append(c) for c in self.epistemic_state["f_cnf_dict"][QUERY_KEY]]
         optimizer = create_optimizer(self.epistemic_state)
         ignore = [
             item
